@@ -73,6 +73,15 @@ Proof.
     injection Hin as -> ->. rewrite Nat.eqb_refl in E. discriminate.
 Qed.
 
+Lemma edit_graph s ws c s' : edit s ws c = Some s' -> s_g s' = s_g s.
+Proof.
+  unfold edit. destruct (c =? 0); [discriminate|]. intros H.
+  assert (E : forall (a b : state), Some a = Some b -> a = b) by (intros a b E0; congruence).
+  apply E in H. subst s'. cbn [set_view s_g].
+  destruct (add_heads_fields (maybe_abandon_wc_commit s ws) [c]) as [G _].
+  rewrite G. apply maybe_abandon_graph.
+Qed.
+
 Section View.
   Variable s0 : state.
   Variable o : rebase_opts.
@@ -237,4 +246,340 @@ Section View.
         intros c Hc. apply added_ids_In in Hc. rewrite IE in Hc. apply in_map_iff in Hc.
         destruct Hc as [z [E Hz]]. injection E as ->. now apply Rn.
   Qed.
+
+  (** ** update_wc_commits *)
+  Lemma PI_write_fresh st nids : PI st -> nids <> [] ->
+    (forall z, In z nids -> z < length (s_g st) /\ Free z) ->
+    PI (fst (write_commit st (fresh_commit (s_g st) nids 0 true) None)) /\
+    snd (write_commit st (fresh_commit (s_g st) nids 0 true) None) = length (s_g st) /\
+    length (s_g (fst (write_commit st (fresh_commit (s_g st) nids 0 true) None))) = S (length (s_g st)).
+  Proof.
+    intros P NE R.
+    set (c := fresh_commit (s_g st) nids 0 true).
+    destruct (J_write_commit st c None (pi_J _ P)) as [Jw [E1 [Lw _]]];
+      [exact NE|intros p Hp; now apply R|discriminate|].
+    destruct (write_commit_fields st c None) as [Gw Pw].
+    destruct (write_commit_view st c None) as [Bw [Ww Hw]].
+    split; [|split; assumption].
+    pose proof (pi_len _ P) as Ln.
+    constructor.
+    - exact Jw.
+    - lia.
+    - intros i Hi. rewrite Gw, getc_app_old by lia. now apply (pi_old _ P).
+    - intros y Hy q Hq. rewrite Lw in Hy. destruct (Nat.eq_dec y (length (s_g st))) as [->|Ny].
+      + rewrite Gw, getc_app_new in Hq. cbn [c fresh_commit c_parents] in Hq. now apply R.
+      + rewrite Gw, getc_app_old in Hq by lia. eapply (pi_new _ P); [|exact Hq]. lia.
+    - rewrite Pw. apply (pi_keys _ P).
+    - intros h Hh L. destruct (Hw h Hh) as [->|Hold]; [|now apply (pi_heads _ P)].
+      pose proof (li_len _ _ _ _ HLI). fold n0 in H. unfold n1 in Ln. lia.
+    - rewrite Bw. apply (pi_bms _ P).
+    - rewrite Ww. apply (pi_wcs _ P).
+  Qed.
+
+  Lemma PI_normalize st : PI st -> PI (normalize st).
+  Proof.
+    intros P. destruct (J_normalize st (pi_J _ P)) as [Jn _].
+    destruct (normalize_fields st) as [G [Pm [B Wc]]].
+    constructor; rewrite ?G, ?Pm, ?B, ?Wc; try apply P; auto.
+    intros h Hh L. unfold normalize in Hh. rewrite normalize_view_eq in Hh.
+    destruct (v_norm (s_v st)); [now apply (pi_heads _ P)|].
+    cbn [set_view s_v set_heads v_heads] in Hh. unfold norm_heads in Hh.
+    destruct (v_heads (s_v st)) as [|a [|b t]] eqn:E.
+    - destruct Hh as [<-|[]]. now left.
+    - apply (pi_heads _ P); [rewrite E; exact Hh|assumption].
+    - apply heads_of_spec in Hh; [|apply (j_wf _ (pi_J _ P))]. destruct Hh as [Hh _].
+      apply remn_In in Hh. destruct Hh as [_ Hh]. apply (pi_heads _ P); [rewrite E; exact Hh|assumption].
+  Qed.
+
+  Lemma PI_maybe_abandon st ws : PI st -> PI (maybe_abandon_wc_commit st ws).
+  Proof.
+    intros P. pose proof (J_maybe_abandon st ws (pi_J _ P)) as Jm.
+    unfold maybe_abandon_wc_commit in *.
+    destruct (wc_get (s_v st) ws) as [w|]; [|assumption].
+    pose proof (PI_normalize st P) as Pn.
+    destruct (_ && _ && _) eqn:C; [|assumption].
+    constructor; cbn [set_pm s_g s_v s_pm]; try apply Pn; auto.
+    intros k Hk. destruct (Nat.eq_dec k w) as [->|N].
+    - rewrite pm_get_set_same. discriminate.
+    - rewrite pm_get_set_other by assumption. now apply (pi_keys _ Pn).
+  Qed.
+
+  Lemma PI_edit st ws c st' : PI st -> c < length (s_g st) -> (c < n0 -> In c Scope) ->
+    edit st ws c = Some st' -> PI st'.
+  Proof.
+    intros P L Sc H.
+    assert (Je : J st') by (eapply J_edit; [apply (pi_J _ P)|exact L|exact H]).
+    unfold edit in H. destruct (c =? 0); [discriminate|].
+    assert (E' : forall (a b : state), Some a = Some b -> a = b) by (intros a b E0; congruence).
+    apply E' in H. clear E'. subst st'.
+    pose proof (PI_maybe_abandon st ws P) as Pm.
+    set (s1' := maybe_abandon_wc_commit st ws) in *.
+    destruct (add_heads_fields s1' [c]) as [G [Pmm [B Wc]]].
+    pose proof (add_heads_single_heads s1' c) as Hheads.
+    set (s2' := add_heads s1' [c]) in *.
+    fold s1' in Je. fold s2' in Je.
+    constructor; cbn [set_view s_g s_v s_pm v_heads v_bms v_wcs].
+    - exact Je.
+    - rewrite G. apply (pi_len _ Pm).
+    - rewrite G. apply (pi_old _ Pm).
+    - rewrite G. apply (pi_new _ Pm).
+    - rewrite Pmm. apply (pi_keys _ Pm).
+    - intros h Hh Lh. apply Hheads in Hh. destruct Hh as [->|Hh]; [right; auto|now apply (pi_heads _ Pm)].
+    - rewrite B. apply (pi_bms _ Pm).
+    - intros ws' c' Hw Lc. apply (aset_In N.eqb N.ltb) in Hw. destruct Hw as [E|Hw].
+      + injection E as -> ->. auto.
+      + rewrite Wc in Hw. now apply (pi_wcs _ Pm ws').
+  Qed.
+
+  Lemma PI_update_wc_commits st mapping st' :
+    resolve_rewrite_mapping pm1 (fun _ => true) = Ok mapping ->
+    PI st -> update_wc_commits st mapping = Ok st' -> PI st'.
+  Proof.
+    intros HM P H. unfold update_wc_commits in H.
+    match type of H with (do r <- fold_left _ ?l _; _) = _ => set (changed := l) in * end.
+    assert (Hch : forall ws oldc nids, In (ws, oldc, nids) changed -> aget Nat.eqb oldc mapping = Some nids).
+    { intros ws oldc nids Hin. unfold changed in Hin. apply in_flat_map in Hin.
+      destruct Hin as [[w c] [_ Hin]]. cbn [fst snd] in Hin.
+      destruct (aget Nat.eqb c mapping) as [ns|] eqn:E; [|contradiction].
+      destruct Hin as [Hin|[]]. injection Hin as <- <- <-. assumption. }
+    destruct (fold_left _ changed (Ok (st, []))) as [[sf rec]| | |] eqn:F; cbn [bind] in H; try discriminate.
+    apply Ok_inj in H. cbn [fst] in H. subst st'.
+    set (Q := fun sr : state * list (nat * nat) =>
+                PI (fst sr) /\ forall k c, aget Nat.eqb k (snd sr) = Some c ->
+                                 c < length (s_g (fst sr)) /\ n0 <= c).
+    assert (HQ : Q (sf, rec)).
+    { refine (fold_res_inv (fun (sr : state * list (nat * nat)) (ch : N * nat * list nat) => _) Q changed _ (st, []) (sf, rec) _ F).
+      - intros [a recr] [[ws oldc] nids] a' [Pa Ra] Hin Hf. cbn [fst snd] in *. cbv beta iota in Hf.
+        destruct (mapping_free mapping oldc nids HM (Hch _ _ _ Hin)) as [NE FR].
+        pose proof (pi_len _ Pa) as Ln.
+        assert (Rn : forall z, In z nids -> z < length (s_g a) /\ Free z).
+        { intros z Hz. destruct (FR z Hz) as [A B]. split; [lia|assumption]. }
+        match type of Hf with (do sw <- ?X; _) = _ => destruct X as [[[s2 rec2] new_wc]| | |] eqn:EX end;
+          cbn [bind] in Hf; try discriminate.
+        assert (Hs2 : Q (s2, rec2) /\ new_wc < length (s_g s2) /\ (new_wc < n0 -> In new_wc Scope)).
+        { destruct (negb (is_abandoned (pm_get (s_pm a) oldc))).
+          - destruct nids as [|n ns]; [discriminate|]. apply Ok_inj in EX. injection EX as <- <- <-.
+            destruct (Rn n (or_introl eq_refl)) as [A [_ B]]. split; [split; assumption|split; assumption].
+          - destruct (aget Nat.eqb oldc recr) as [cc|] eqn:ER.
+            + apply Ok_inj in EX. injection EX as <- <- <-. destruct (Ra _ _ ER) as [A B].
+              split; [split; assumption|split; [assumption|lia]].
+            + destruct nids as [|n ns] eqn:En; [discriminate|]. rewrite <- En in *.
+              destruct (PI_write_fresh a nids Pa NE Rn) as [Pw [Ew Lw]].
+              destruct (write_commit a (fresh_commit (s_g a) nids 0 true) None) as [sw nw] eqn:EW.
+              cbn [fst snd] in *. subst nids. apply Ok_inj in EX. injection EX as <- <- <-.
+              pose proof (li_len _ _ _ _ HLI) as L0. fold n0 in L0. unfold n1 in Ln.
+              split; [split; [assumption|]|split; [lia|lia]].
+              intros k c Hk. cbn [fst snd] in Hk |- *. destruct (Nat.eq_dec k oldc) as [->|Nk].
+              * rewrite aget_aset_same in Hk. injection Hk as <-. split; lia.
+              * rewrite aget_aset_other in Hk by assumption. destruct (Ra _ _ Hk). split; lia. }
+        destruct Hs2 as [[P2 R2] [L2 S2]].
+        destruct (edit s2 ws new_wc) as [s3|] eqn:EE; [|discriminate]. apply Ok_inj in Hf. subst a'.
+        cbn [fst snd]. split.
+        + eapply PI_edit; eassumption.
+        + intros k c Hk. cbn [fst snd] in *. destruct (R2 _ _ Hk) as [A B]. split; [|assumption].
+          rewrite (edit_graph _ _ _ _ EE). exact A.
+      - split; [exact P|]. intros k c Hk. discriminate. }
+    apply HQ.
+  Qed.
+
+  (** ** update_heads and the final view *)
+  Hypothesis root_not_key : pm_get (s_pm s0) 0 = None.
+
+  Lemma old_in_G st i : PI st -> i < n0 -> getc (s_g st) i = getc (s_g s0) i.
+  Proof.
+    intros P L. pose proof (li_len _ _ _ _ HLI) as L0. fold n0 in L0.
+    rewrite (pi_old _ P) by (unfold n1; lia). now apply (li_old _ _ _ _ HLI).
+  Qed.
+
+  Lemma parent_scope st y p : PI st -> y < length (s_g st) ->
+    (y < n0 -> y = 0 \/ In y Scope) -> In p (c_parents (getc (s_g st) y)) -> p < n0 -> In p Scope.
+  Proof.
+    intros P Ly Sy Hp Lp.
+    destruct (Nat.lt_ge_cases y n0) as [Lo|Lo].
+    - rewrite (old_in_G st y P Lo) in Hp. destruct (Sy Lo) as [->|Sc].
+      + exfalso. rewrite <- parents_pg in Hp. apply (j_wf _ J0) in Hp. lia.
+      + apply (Scope_old p y Sc). apply anc_parent. now rewrite parents_pg.
+    - destruct (Nat.lt_ge_cases y n1) as [L1|L1].
+      + rewrite (pi_old _ P y L1) in Hp.
+        assert (S : Settled s0 o order s1 p).
+        { eapply (li_parents _ _ _ _ HLI); [right; split; [exact Lo|exact L1]|exact Hp]. }
+        destruct S as [_ [_ [_ S]]]. now apply S.
+      + destruct (pi_new _ P y (conj L1 Ly) p Hp) as [_ S]. now apply S.
+  Qed.
+
+  Lemma covered_scope st x : PI st -> covered (pg (s_g st)) (v_heads (s_v st)) x ->
+    x < n0 -> x = 0 \/ In x Scope.
+  Proof.
+    intros P [h [Hh Ha]].
+    assert (G : forall a y, anc (pg (s_g st)) a y -> y < length (s_g st) ->
+                  (y < n0 -> y = 0 \/ In y Scope) -> a < n0 -> a = 0 \/ In a Scope).
+    { clear x h Hh Ha. intros a y Hxy. induction Hxy as [z|a p d Hp _ IH]; intros Ly Sy Lx; [auto|].
+      rewrite parents_pg in Hp.
+      assert (p < d) by (apply (j_wf _ (pi_J _ P)); now rewrite parents_pg).
+      apply IH; [lia| |assumption].
+      intros Lp. right. eapply parent_scope; eassumption. }
+    apply (G x h Ha); [now apply (j_heads _ (pi_J _ P))|now apply (pi_heads _ P)].
+  Qed.
+
+  Lemma update_heads_graph st : s_g (update_heads st) = s_g st.
+  Proof.
+    unfold update_heads.
+    match goal with |- s_g (normalize ?X) = _ => destruct (normalize_fields X) as [G _]; rewrite G end.
+    reflexivity.
+  Qed.
+
+  Lemma update_heads_heads st h : PI st -> In h (v_heads (s_v (update_heads st))) ->
+    h < length (s_g st) /\ pm_get pm1 h = None /\ (h < n0 -> h = 0 \/ In h Scope).
+  Proof.
+    intros P Hh. pose proof (pi_J _ P) as Jst.
+    assert (Z : pm_get pm1 0 = None).
+    { unfold pm1. rewrite (li_pm_other _ _ _ _ HLI 0); [assumption|].
+      intros Ho. apply (li_done_T _ _ _ _ HLI) in Ho.
+      apply to_visit_spec in Ho; [|apply (j_wf _ J0)]. destruct Ho as [_ [[k [Hk Ha]] _]].
+      assert (k = 0) by (pose proof (anc_le _ _ _ (j_wf _ J0) Ha); lia). subst k.
+      apply In_pm_keys_get in Hk. destruct Hk as [r Hr]. congruence. }
+    unfold update_heads in Hh.
+    set (g := pg (s_g st)) in *. set (keys := pm_keys (s_pm st)) in *.
+    set (vis := ancs g (v_heads (s_v st))) in *.
+    set (old := filter (fun k => memn k vis) keys) in *.
+    set (to_add := filter (fun p => negb (memn p old)) (flat_map (parents g) old)) in *.
+    set (hs := fold_left (fun hs k => remn k hs) keys (v_heads (s_v st))) in *.
+    set (hs' := fold_left (fun hs p => ins p hs) to_add hs) in *.
+    assert (Hin : h = 0 \/ In h hs').
+    { unfold normalize in Hh. rewrite normalize_view_eq in Hh.
+      cbn [set_view s_v s_g set_heads v_norm v_heads] in Hh. unfold norm_heads in Hh.
+      destruct hs' as [|a [|b t]] eqn:E.
+      - destruct Hh as [<-|[]]. now left.
+      - right. exact Hh.
+      - right. apply heads_of_spec in Hh; [|apply (j_wf _ Jst)]. destruct Hh as [Hh _].
+        apply remn_In in Hh. apply Hh. }
+    pose proof (j_ne _ Jst) as NE.
+    destruct Hin as [->|Hin]; [split; [lia|split; [exact Z|now left]]|].
+    unfold hs' in Hin. apply fold_ins_In in Hin. destruct Hin as [Hin|Hin].
+    - unfold hs in Hin. apply fold_remn_In in Hin. destruct Hin as [Hhd Hnk].
+      split; [now apply (j_heads _ Jst)|]. split; [|now apply (pi_heads _ P)].
+      destruct (pm_get pm1 h) eqn:G1; [|reflexivity]. exfalso. apply Hnk. apply In_pm_keys_get.
+      destruct (pm_get (s_pm st) h) as [r'|] eqn:G2; [eauto|]. exfalso. apply (pi_keys _ P h); [congruence|assumption].
+    - unfold to_add in Hin. apply filter_In in Hin. destruct Hin as [Hin Hno].
+      apply in_flat_map in Hin. destruct Hin as [k [Hk Hp]].
+      unfold old in Hk. apply filter_In in Hk. destruct Hk as [Hkk Hkv].
+      apply memn_In in Hkv. apply negb_true_iff, memn_false in Hno.
+      assert (Lk : k < length (s_g st)).
+      { unfold keys in Hkk. apply In_pm_keys_get in Hkk. destruct Hkk as [r Hr]. apply pm_get_In in Hr.
+        destruct (j_pm _ Jst k r Hr) as [A _]. exact A. }
+      assert (Lh : h < k) by now apply (j_wf _ Jst).
+      assert (Hv : In h vis).
+      { unfold vis in *. apply covered_ancs in Hkv; [|apply (j_wf _ Jst)]. apply covered_ancs; [apply (j_wf _ Jst)|].
+        destruct Hkv as [hd [Hhd Ha]]. exists hd. split; [assumption|].
+        apply (anc_trans _ h k hd); [apply anc_parent; exact Hp|exact Ha]. }
+      split; [lia|]. split.
+      + destruct (pm_get pm1 h) eqn:G1; [|reflexivity]. exfalso. apply Hno. unfold old. apply filter_In.
+        split; [|now apply memn_In]. unfold keys. apply In_pm_keys_get.
+        destruct (pm_get (s_pm st) h) as [r'|] eqn:G2; [eauto|]. exfalso. apply (pi_keys _ P h); [congruence|assumption].
+      + intros L. apply (covered_scope st h P); [|assumption].
+        unfold vis in Hv. apply covered_ancs in Hv; [assumption|apply (j_wf _ Jst)].
+  Qed.
+
+  (** Taint travels upwards along unshielded commits. *)
+  Lemma taint_up g keys S x h : wf_dag g ->
+    let sh := ancs g S in
+    anc g x h -> Tainted g keys sh x -> ~ In x sh -> h < length g -> Tainted g keys sh h \/ In h sh.
+  Proof.
+    intros W sh Ha. induction Ha as [z|a p d Hp Ha IH]; intros Ht Hs L; [now left|].
+    assert (p < d) by now apply W.
+    destruct (IH Ht Hs) as [Tp|Sp]; [lia| |].
+    - destruct (in_dec Nat.eq_dec d sh) as [I|I]; [now right|left].
+      eapply T_child; eassumption.
+    - exfalso. apply Hs. unfold sh in *. apply ancs_spec in Sp; [|assumption]. apply ancs_spec; [assumption|].
+      destruct Sp as [s [Hs' Hps]]. exists s. split; [assumption|]. eapply anc_trans; eassumption.
+  Qed.
+
+  Theorem view_clean st : PI st ->
+    let G := s_g st in
+    let sh := ancs (pg G) (imm ++ div_keys pm1) in
+    forall x, covered (pg G) (v_heads (s_v (update_heads st))) x -> ~ In x sh ->
+      ~ Tainted (pg G) (nd_keys pm1) sh x.
+  Proof.
+    intros P G sh x [h [Hh Ha]] Hs Ht.
+    destruct (update_heads_heads st h P Hh) as [Lh [Gh Sh]].
+    pose proof (pi_J _ P) as Jst. pose proof (j_wf _ Jst) as W.
+    assert (Lh' : h < length (pg G)) by (unfold G; now rewrite pg_length).
+    destruct (taint_up (pg G) (nd_keys pm1) (imm ++ div_keys pm1) x h W Ha Ht Hs Lh') as [Th|Sh'].
+    2:{ apply Hs. unfold sh in *. apply ancs_spec in Sh'; [|assumption]. apply ancs_spec; [assumption|].
+        destruct Sh' as [s [Hs' Hps]]. exists s. split; [assumption|]. eapply anc_trans; eassumption. }
+    assert (Hsh : ~ In h sh).
+    { intros I. apply Hs. unfold sh in *. apply ancs_spec in I; [|assumption]. apply ancs_spec; [assumption|].
+      destruct I as [s [Hs' Hps]]. exists s. split; [assumption|]. eapply anc_trans; eassumption. }
+    pose proof (li_len _ _ _ _ HLI) as L0. fold n0 in L0. pose proof (pi_len _ P) as L1.
+    pose proof (li_J _ _ _ _ HLI) as J1.
+    assert (U1 : forall k r r', In (k, r) pm1 -> In (k, r') pm1 -> r = r').
+    { intros k r r'. apply sorted_keys_unique. apply (j_pm_sorted _ J1). }
+    assert (PO : forall k, ~ In k T -> pm_get pm1 k = pm_get (s_pm s0) k).
+    { intros k Hk. apply (li_pm_other _ _ _ _ HLI). intros Ho. apply Hk. now apply (li_done_T _ _ _ _ HLI). }
+    assert (PA : forall y', (In y' T /\ pm_get pm1 y' = None) \/ (n0 <= y' < length G) ->
+               forall q, In q (c_parents (getc G y')) -> pm_nd pm1 q = None /\ (q < n0 -> In q Scope)).
+    { intros y' Hy q Hq.
+      assert (Cases : (In y' T /\ pm_get pm1 y' = None) \/ (n0 <= y' < n1) \/ (n1 <= y' < length G)).
+      { destruct Hy as [Hy|Hy]; [now left|right]. destruct (Nat.lt_ge_cases y' n1); [left|right]; lia. }
+      destruct Cases as [[A B]|[A|A]].
+      - assert (Ly : y' < n0).
+        { apply to_visit_spec in A; [|apply (j_wf _ J0)]. apply A. }
+        unfold G in Hq. rewrite (pi_old _ P y') in Hq by (unfold n1; lia).
+        assert (S : Settled s0 o order s1 q).
+        { apply (li_parents _ _ _ _ HLI y'); [left; split; [apply Tall; exact A|exact B]|exact Hq]. }
+        destruct S as [_ [S1 [_ S2]]]. auto.
+      - unfold G in Hq. rewrite (pi_old _ P y') in Hq by lia.
+        assert (S : Settled s0 o order s1 q).
+        { apply (li_parents _ _ _ _ HLI y'); [right; exact A|exact Hq]. }
+        destruct S as [_ [S1 [_ S2]]]. auto.
+      - destruct (pi_new _ P y' A q Hq) as [F1 F2]. split; [|assumption].
+        unfold pm_nd, pm_filtered. now rewrite F1. }
+    assert (Nh : pm_nd pm1 h = None) by (unfold pm_nd, pm_filtered; now rewrite Gh).
+    destruct (Nat.eq_dec h 0) as [->|Nz].
+    - (* the root commit is never tainted *)
+      inversion Th as [k Hk _|y p _ _ Hp _]; subst.
+      + apply (nd_keys_nd pm1 0 Nh (U1 0) Hk).
+      + apply W in Hp. lia.
+    - assert (Sc : h < n0 -> In h Scope) by (intros L; destruct (Sh L); [congruence|assumption]).
+      refine (clean_all s0 o J0 G pm1 W _ _ U1 PO PA h Lh Sc Nh Hsh Th).
+      + unfold G. lia.
+      + intros i Hi. unfold G. now apply old_in_G.
+  Qed.
 End View.
+
+(** * The view written by rebase_descendants has no orphans *)
+Theorem no_orphans_model s0 o ord s' :
+  J s0 ->
+  (forall k r t, In (k, r) (s_pm s0) -> In t (new_parent_ids r) -> In t (scope s0 (o_imm o))) ->
+  (forall name t, In (name, t) (v_bms (s_v s0)) -> Nat.odd (length t) = true) ->
+  pm_get (s_pm s0) 0 = None ->
+  (forall order, ord (s_g s0) (s_pm s0) (find_descendants_for_rebase s0 (o_imm o)) = Ok order ->
+     valid_from s0 o [] order /\ forall x, In x (find_descendants_for_rebase s0 (o_imm o)) -> In x order) ->
+  rebase_descendants_with ord s0 o = Ok s' ->
+  exists s1, rebase_loop_with ord s0 o = Ok s1 /\
+    let sh := ancs (pg (s_g s')) (o_imm o ++ div_keys (s_pm s1)) in
+    forall x, covered (pg (s_g s')) (v_heads (s_v s')) x -> ~ In x sh ->
+      ~ Tainted (pg (s_g s')) (nd_keys (s_pm s1)) sh x.
+Proof.
+  intros J0 Dom Odd Root Hord H.
+  unfold rebase_descendants_with in H.
+  destruct (rebase_loop_with ord s0 o) as [s1| | |] eqn:EL; cbn [bind] in H; try discriminate.
+  exists s1. split; [reflexivity|].
+  unfold rebase_loop_with in EL.
+  destruct (ord (s_g s0) (s_pm s0) (find_descendants_for_rebase s0 (o_imm o))) as [order| | |] eqn:EO;
+    cbn [bind] in EL; try discriminate.
+  destruct (Hord order eq_refl) as [V Tall].
+  destruct (loop_clean s0 o J0 Dom order s1 V Tall EL) as [HLI _].
+  destruct (update_rewritten_references s1 (o_delete_abandoned o)) as [s2| | |] eqn:EU; cbn [bind] in H; try discriminate.
+  apply Ok_inj in H. subst s'. cbn [set_pm s_g s_v].
+  unfold update_rewritten_references in EU.
+  destruct (resolve_rewrite_mapping (s_pm s1) (fun _ => true)) as [mapping| | |] eqn:EM; cbn [bind] in EU; try discriminate.
+  destruct (update_local_bookmarks s1 mapping (o_delete_abandoned o)) as [sA| | |] eqn:EA; cbn [bind] in EU; try discriminate.
+  destruct (update_wc_commits sA mapping) as [sB| | |] eqn:EB; cbn [bind] in EU; try discriminate.
+  apply Ok_inj in EU. subst s2.
+  assert (P1 : PI s0 o s1 s1) by (eapply PI_init; eassumption).
+  assert (PA : PI s0 o s1 sA) by (eapply PI_update_local_bookmarks; eassumption).
+  assert (PB : PI s0 o s1 sB) by (eapply PI_update_wc_commits; eassumption).
+  rewrite update_heads_graph.
+  eapply view_clean; eassumption.
+Qed.
